@@ -89,9 +89,12 @@ func (s *state) walk(node ast.Node) {
 	case *ast.HeaderParamNode:
 		// TODO: Validate param types.
 	case *ast.ListNode:
+		// a block is a scope: a let is visible only until its block ends
+		s.context.push()
 		for _, node := range node.Nodes {
 			s.walk(node)
 		}
+		s.context.pop()
 
 		// Output nodes ----------
 	case *ast.PrintNode:
